@@ -147,6 +147,8 @@ class _Expr(SymEval):
             return getattr(base, n.attr)
         if isinstance(base, np.ndarray) and n.attr == "flat":
             return base.ravel(order="C")  # iteration order of ndarray.flat (a view for contiguous arrays)
+        if isinstance(base, np.generic) and n.attr in ("flat", "size", "shape", "ndim"):
+            return np.asarray(base).ravel() if n.attr == "flat" else getattr(base, n.attr)  # a numpy scalar (x[i])
         if isinstance(base, (list, tuple)) and n.attr == "shape":
             raise NotSymbolic("shape of a list")
         raise NotSymbolic(f"attribute {n.attr} of {type(base).__name__}")
